@@ -865,9 +865,17 @@ class Evaluator:
         for st in stmts:
             if live == FALSE:
                 break
+            before = live
             live = self.stmt(st, live)
             if self._post and live != FALSE:
                 live = AND(live, *self._post)
+                # a display bound by this very statement (`d = {"k": helper(x)}` where the inlined helper may raise) is defined on
+                # the path that continues: later `d[k] = v` / `xs.append(v)` on that path still fold into it
+                tg = st.targets[0] if isinstance(st, ast.Assign) and len(st.targets) == 1 else (st.target if isinstance(st, ast.AnnAssign) else None)
+                if isinstance(tg, ast.Name):
+                    for defs_ in (getattr(self, "dict_defs", None), getattr(self, "list_defs", None)):
+                        if defs_ and defs_.get(tg.id) == (tuple(self.loop_stack), before):
+                            defs_[tg.id] = (tuple(self.loop_stack), live)
             self._post = []
         return live
 
